@@ -10,5 +10,5 @@ def make(name):
   raise KeyError(name)
 
 
-FF_NAMES = ['StructListReg', 'NegLiteral', 'TwoRegsPlusChild', 'OneRegPlusTwoChildren', 'NoDataInputs', 'Swap', 'ShiftChain3', 'CondMulti', 'StructReg', 'ListRot4', 'ParentWritesChild', 'Forwarded', 'ManyBranchy9',
+FF_NAMES = ['FuncFF', 'NegIdx', 'StructChain', 'StructListReg', 'NegLiteral', 'TwoRegsPlusChild', 'OneRegPlusTwoChildren', 'NoDataInputs', 'Swap', 'ShiftChain3', 'CondMulti', 'StructReg', 'ListRot4', 'ParentWritesChild', 'Forwarded', 'ManyBranchy9',
             'RegFile', 'RegEnRst', 'stdlib:NormalQueueRTL2', 'stdlib:BypassQueueRTL4', 'stdlib:StreamPipeQueue2', 'stdlib:RoundRobinArbiterEn3']
